@@ -14,10 +14,10 @@ Case == Cases[ci]
 Ev == Case.ev[ei]
 K == Case.k
 
-(* named deviation (open known finding): exactly-one groups of 5 or more variables are        *)
-(* translated with auxiliary variables, which is only sound at positive polarity              *)
-KFUnique == UniqNonPos(Case.f, 1, 5)
-Tag(w) == IF w # "" /\ w # "crash" /\ w # "timeout" /\ KFUnique THEN "kf:bf-unique-nonpositive:" \o w ELSE w
+(* (until commit "first-class exactly-one" exactly-one groups of 5 or more variables at a        *)
+(* non-positive polarity were an open known finding with the trigger BF!UniqNonPos(f, 1, 5); the  *)
+(* deviation has been removed with the repair)                                                     *)
+Tag(w) == w
 
 Agree(dom, val) == {a \in Assignments(K) : \A j \in 1..Len(dom) : dom[j] # 0 => a[dom[j]] = val[j]}
 
